@@ -228,6 +228,31 @@ Proof.
 Qed.
 Print Assumptions C19_angle_mesh_axis.
 
+
+(* every test that Region(p1=pmin+delta, p2=pmax-delta) and Mesh(region, cell=cell) apply to the chosen
+   axis passes, for ANY non-negative tolerances, with count k-1; the other axes (delta = 0) pass with
+   their own count (C01's by-cell lemmas; the n-d constructors apply these tests axis by axis - the
+   list-level assembly of angle_mesh itself is executed by the correspondence, not proved) *)
+Theorem C19_angle_mesh_axis_accepted : forall (lo hi : Q) (k : Z), (2 <= k)%Z -> (lo < hi)%Q ->
+  forall rtol atol tol : Q, (0 <= rtol)%Q -> (0 <= atol)%Q -> (0 <= tol)%Q ->
+  let c := cell_of lo hi k in let lo' := (lo + c / 2)%Q in let hi' := (hi - c / 2)%Q in
+  (Qmin lo' hi' == lo')%Q /\ (Qmax lo' hi' == hi')%Q /\ Qeq_bool (hi' - lo') 0 = false /\
+  Qltb 0 c = true /\
+  contains1 rtol atol lo' hi' lo' = true /\ contains1 rtol atol lo' hi' (lo' + c) = true /\
+  bad_rem tol c (hi' - lo') = false /\ Qround_half_even ((hi' - lo') / c) = (k - 1)%Z.
+Proof. intros lo hi k Hk Hlt rtol atol tol Hr Ha Ht. exact (angle_axis_accepted lo hi k Hk Hlt rtol atol tol Hr Ha Ht). Qed.
+Print Assumptions C19_angle_mesh_axis_accepted.
+
+Theorem C19_angle_mesh_other_axis_accepted : forall (lo hi : Q) (k : Z) (rtol atol tol : Q),
+  (1 <= k)%Z -> (lo < hi)%Q -> (0 <= rtol)%Q -> (0 <= atol)%Q -> (0 <= tol)%Q ->
+  let c := cell_of lo hi k in
+  (Qmin (lo + 0) (hi - 0) == lo)%Q /\ (Qmax (lo + 0) (hi - 0) == hi)%Q /\
+  Qeq_bool ((hi - 0) - (lo + 0)) 0 = false /\ Qltb 0 c = true /\
+  contains1 rtol atol lo hi lo = true /\ contains1 rtol atol lo hi (lo + c) = true /\
+  bad_rem tol c (hi - lo) = false /\ Qround_half_even ((hi - lo) / c) = k.
+Proof. exact angle_other_axis_accepted. Qed.
+Print Assumptions C19_angle_mesh_other_axis_accepted.
+
 Example C19_angle_mesh_nonvacuous :
   check_angle_mesh_example = true.
 Proof. vm_compute. reflexivity. Qed.
